@@ -34,25 +34,36 @@ func DefaultGeometry() Geometry { return Geometry{20, 10000, 2, 1000} }
 // the error messages (an observation point for "internal panic" paths).
 type CountLogger struct {
 	Errors, Warns int
-	ErrMsgs       []string
+	msgs          [16]string
+	nmsg          int
 }
 
 func (l *CountLogger) Debug(string, ...interface{}) {}
 func (l *CountLogger) DebugEnabled() bool           { return false }
 func (l *CountLogger) Info(string, ...interface{})  {}
 func (l *CountLogger) InfoEnabled() bool            { return false }
-func (l *CountLogger) Warn(string, ...interface{})  { l.Warns++ }
-func (l *CountLogger) WarnEnabled() bool            { return true }
+
+// The logger is called from every simulated caller. Its bookkeeping is simulator state, not
+// program state: norace, fixed-size storage (see sim/sched.go for why).
+//
+//go:norace
+func (l *CountLogger) Warn(string, ...interface{}) { l.Warns++ }
+func (l *CountLogger) WarnEnabled() bool           { return true }
+
+//go:norace
 func (l *CountLogger) Error(err error, msg string, kv ...interface{}) {
 	l.Errors++
-	if len(l.ErrMsgs) < 16 {
-		l.ErrMsgs = append(l.ErrMsgs, msg)
+	if l.nmsg < len(l.msgs) {
+		l.msgs[l.nmsg] = msg
+		l.nmsg++
 	}
 }
 func (l *CountLogger) ErrorEnabled() bool { return true }
 
+func (l *CountLogger) ErrMsgs() []string { return l.msgs[:l.nmsg] }
+
 func (l *CountLogger) SawPanic() bool {
-	for _, m := range l.ErrMsgs {
+	for _, m := range l.ErrMsgs() {
 		if strings.Contains(m, "panic") {
 			return true
 		}
@@ -95,7 +106,7 @@ func Reset(startNs uint64, g Geometry) *Env {
 	sim.DrainPools()
 	sim.ResetSeq()
 	sim.TakeSpinOverflow()
-	lg.Errors, lg.Warns, lg.ErrMsgs = 0, 0, nil
+	lg.Errors, lg.Warns, lg.nmsg = 0, 0, 0
 	return &Env{Clock: clk, Log: lg}
 }
 
